@@ -12,19 +12,25 @@ STATEMENT = ("for every date t in [1900, 2300): dt(t), dt of its date, of its (y
              "timestamps, ISO / yyyymmdd / day-month-year (UK) / month-day-year (US) / month-name strings all equal t; dt(dt2str(t)) == t; "
              "ymd() drops the time of day; an unambiguous (day > 12) string in the other dialect raises ValueError; dt(y,m,d) with month or "
              "day out of range is the first day of the normalised month plus d-1 days")
-LEAN_FILES = ['Basic', 'Greg', 'GenTypes', 'Bump', 'DateParse', 'DateParseDriver', 'PygGen', 'Sweep', 'GregLemmas', 'GregPeriod', 'BumpLemmas',
-              'MonthLemmas', 'TokenLemmas', 'DateLemmas', 'DateStrLemmas', 'C04']
-GENERATED = ['PygGen.Ym', 'PygGen.Num2dt', 'PygGen.Tables']
+LEAN_FILES = ['Basic', 'Greg', 'GenTypes', 'Bump', 'DateParse', 'NpDate', 'DateParseDriver', 'PygGen', 'Sweep', 'GregLemmas', 'GregPeriod', 'BumpLemmas',
+              'MonthLemmas', 'TokenLemmas', 'DateLemmas', 'DateStrLemmas', 'DateTextLemmas', 'NpDateLemmas', 'MonthNameLemmas', 'C04']
+GENERATED = ['PygGen.Ym', 'PygGen.Num2dt', 'PygGen.Tables', 'PygGen.Np2dt', 'PygGen.DuMonths']
 RULE = ('distinct protocol lines (one spelling of one instant, or one (y, m, d) overflow triple, or one translator-grid integer) on which '
         'dt()/ymd()/dt2str() returned a value')
-TRUSTED = ['harness/pv/translate.py (python ast -> Lean, validated each run on the threshold grid)',
+TRUSTED = ['harness/pv/translate.py (python ast -> Lean, validated each run on the threshold grid; np2dt: its isinstance chain only; '
+           'dateutil parserinfo.MONTHS lifted as a constant table)',
            'correspondence harness (pv.engine, pv.proto) and generators of pv.props.c04',
            'Lean driver parser/printer (PygModel/Basic.lean, DateParseDriver.lean)']
 ASSUMPTIONS = ['CPython datetime constructors / ordinals behave as PygModel/Greg.lean (sampled on every line)',
-               'dateutil.parser.parse reads a<sep>b<sep>yyyy month-first unless a > 12, and ISO / yyyymmdd / month-name spellings as written; '
-               'this is assumed by the model (duResolve, parseTokens) and decided by correspondence only',
-               'numpy datetime64 units truncate; pd.Timestamp is a datetime; both decided by correspondence only',
-               'time zones, dt() without arguments, two-digit years and yyyy-mm forms are not modelled']
+               'dateutil.parser.parse reads a<sep>b<sep>yyyy month-first unless a > 12, and ISO / yyyymmdd / month-name spellings as written '
+               '(month names looked up, lower-cased, in its own MONTHS table, which is lifted into the generated Gen.duMonths); '
+               'this is assumed by the model (duResolve, parseTokens) and sampled by correspondence',
+               'numpy: x.astype(datetime.datetime) gives a date for Y/M/W/D, a datetime for h..us, an int for ns or outside year 1..9999; '
+               'np.datetime64(t, unit) floors to the unit; pd.Timestamp(datetime64[ns]) / pd.Timestamp(t) is that instant, is a datetime.datetime '
+               'and compares equal to a datetime of the same instant (PygModel/NpDate.lean: hand-modelled integer arithmetic on (value, unit), '
+               'sampled by the ops np / np64 / pd / pdns over every unit and the whole datetime range); only the class dispatch of np2dt is generated',
+               'time zones, dt() without arguments, two-digit years (century = within 50 years of today: laws on day / month / rejection only) '
+               'and yyyy-mm forms are not modelled']
 
 D = datetime.datetime
 TD = datetime.timedelta
